@@ -416,18 +416,54 @@ def build(spec):
     else:
         arr = arr.astype(spec['dtype'])
     arr = _with_layout(arr, spec.get('layout', 'C'))
+    aff = _spec_affine(spec)
+    channels = {}
+    for c in spec['channels']:
+        vals = c['values']
+        channels[_descriptor(c['desc'])] = list(vals)
+    # the affines handed to the constructors belong to the CALLER: float64 arrays that are overwritten in place right after the
+    # construction - the objects must not be affected (run_history compares with the affine of the spec)
+    av, ag = aff.copy(), aff.copy()
+    v = Volume(arr, av, spec['coord'], frame_of_reference_uid=spec['for_uid'], channels=channels or None)
+    g = VolumeGeometry(ag, shape, spec['coord'], frame_of_reference_uid=spec['for_uid'])
+    av[...] = -4321.5
+    ag[...] = 1234.25
+    return v, g
+
+
+def _spec_affine(spec):
     aff = np.eye(4)
     for i in range(3):
         for j in range(3):
             aff[i, j] = float(spec['lin'][i][j])
         aff[i, 3] = float(spec['pos'][i])
-    channels = {}
-    for c in spec['channels']:
-        vals = c['values']
-        channels[_descriptor(c['desc'])] = list(vals)
-    v = Volume(arr, aff.copy(), spec['coord'], frame_of_reference_uid=spec['for_uid'], channels=channels or None)
-    g = VolumeGeometry(aff.copy(), shape, spec['coord'], frame_of_reference_uid=spec['for_uid'])
-    return v, g
+    return aff
+
+
+ARRAY_ACCESSORS = ['affine', 'inverse_affine', 'direction', 'unit_vectors', 'spacing_vectors', 'get_affine']
+
+
+def clobber_returned_arrays(ctx, case, obj, site):
+    """Every accessor that hands out an array: the caller overwrites what it got in place; the object must not notice (its
+    affine, its inverse map, its accessors stay what they were)."""
+    aff_before = obj.affine.tobytes()
+    inv_before = np.asarray(obj.inverse_affine).copy()
+    for name in ARRAY_ACCESSORS:
+        try:
+            val = obj.get_affine(None) if name == 'get_affine' else getattr(obj, name)
+            if callable(val):
+                val = val()
+        except Exception as e:  # noqa: BLE001
+            ctx.fail(case, {'what': f'accessor {name} raised {type(e).__name__}: {e}'[:200]}, site=site + '/accessor')
+            continue
+        for a in (val if isinstance(val, (tuple, list)) else [val]):
+            if isinstance(a, np.ndarray) and a.flags.writeable:
+                a[...] = -777.125
+    if obj.affine.tobytes() != aff_before:
+        ctx.fail(case, {'what': 'overwriting an array returned by an accessor changed the affine of the object'}, site=site + '/accessor-alias')
+    if not np.array_equal(np.asarray(obj.inverse_affine), inv_before):
+        ctx.fail(case, {'what': 'overwriting an array returned by an accessor changed the inverse affine of the object '
+                                '(a cached matrix was handed out)'}, site=site + '/accessor-alias')
 
 
 def _spell_seq(xs, sp):
@@ -1419,6 +1455,15 @@ def _model_op(op, vcur):
 def run_history(ctx, spec, length, r, reqs, pending):
     """Run one generated history on the implementation, apply the oracle, queue the model request."""
     v0, g0 = build(spec)
+    want_aff = _spec_affine(spec)
+    for who, o in (('Volume', v0), ('VolumeGeometry', g0)):
+        if not np.array_equal(o.affine, want_aff):
+            ctx.fail({'hist': spec['idx'], 'step': 'construct'},
+                     {'what': f'{who} constructed from a float64 affine follows the caller\'s array: overwriting it in place after the '
+                              'construction moved the object', 'got': o.affine.tolist(), 'want': want_aff.tolist()}, site='construct/alias')
+            return
+    clobber_returned_arrays(ctx, {'hist': spec['idx'], 'step': 'construct'}, v0, 'construct')
+    clobber_returned_arrays(ctx, {'hist': spec['idx'], 'step': 'construct', 'on': 'geometry'}, g0, 'construct')
     exact = (not spec['oblique']) and _exactness(v0.affine)
     snap0 = _snapshot(v0)
     base = v0                 # baseline for the whole-history unique-value check
@@ -1505,6 +1550,7 @@ def run_history(ctx, spec, length, r, reqs, pending):
                 ctx.fail(case, {'what': 'operation returned no volume'}, site=site)
                 break
             independence_probe(ctx, case, v, v2, op, before, site)
+            clobber_returned_arrays(ctx, case, v2, site)      # the caller overwrites what the accessors handed out, before the oracle
             good = oracle_step(ctx, case, v, v2, op, exact, site)
             if op['op'] in ('get_channel', 'permute_channels', 'permute_channels_by_id'):
                 oracle_channel_op(ctx, case, v, v2, op, site)
